@@ -75,9 +75,26 @@ def _box(x0, y0, x1, y1):
     return pen.glyph()
 
 
-def build_layout_font(with_colr=None, space=True):
+def _box_points(x0, y0, x1, y1):
+    return [(x0, y0), (x0, y1), (x1, y1), (x1, y0)]
+
+
+def _charstring(contours, width):
+    from fontTools.pens.t2CharStringPen import T2CharStringPen
+
+    pen = T2CharStringPen(width, None)
+    for pts in contours:
+        pen.moveTo(pts[0])
+        for pt in pts[1:]:
+            pen.lineTo(pt)
+        pen.closePath()
+    return pen.getCharString()
+
+
+def build_layout_font(with_colr=None, space=True, outlines="glyf"):
+    """outlines: "glyf", "cff" or "cff2" (the charstring flavours nanoemoji's cff_* formats emit)."""
     GLYPHS = [g for g in globals()["GLYPHS"] if space or g != "space"]
-    fb = FontBuilder(1000, isTTF=True)
+    fb = FontBuilder(1000, isTTF=outlines == "glyf")
     fb.setupGlyphOrder(GLYPHS)
     cmap = {0x20: "space"} if space else {}
     for g in GLYPHS:
@@ -86,18 +103,33 @@ def build_layout_font(with_colr=None, space=True):
     cmap.update({0x31: "one", 0x32: "two", 0x301: "acute", 0x300: "grave", 0x30A: "ring", 0x323: "dotbelow", 0x628: "beh", 0x645: "meem"})
     fb.setupCharacterMap(cmap)
     glyphs = {}
-    for i, g in enumerate(GLYPHS):
-        if g in (".notdef", "space"):
-            pen = TTGlyphPen(None)
-            glyphs[g] = pen.glyph()
+    boxes = {g: (10 + i, 0, 100 + 7 * i, 300 + 11 * i) for i, g in enumerate(GLYPHS) if g not in (".notdef", "space")}
+    if outlines == "glyf":
+        for i, g in enumerate(GLYPHS):
+            if g in (".notdef", "space"):
+                pen = TTGlyphPen(None)
+                glyphs[g] = pen.glyph()
+            else:
+                glyphs[g] = _box(*boxes[g])
+        # a composite
+        pen = TTGlyphPen(GLYPHS)
+        pen.addComponent("f", (1, 0, 0, 1, 0, 0))
+        pen.addComponent("i", (1, 0, 0, 1, 260, 0))
+        glyphs["f_i"] = pen.glyph()
+        fb.setupGlyf(glyphs)
+    else:
+        def contours_of(g):
+            if g == "f_i":
+                x0, y0, x1, y1 = boxes["i"]
+                return [_box_points(*boxes["f"]), _box_points(x0 + 260, y0, x1 + 260, y1)]
+            return [_box_points(*boxes[g])] if g in boxes else []
+
+        if outlines == "cff":
+            glyphs = {g: _charstring(contours_of(g), 300 + 13 * i) for i, g in enumerate(GLYPHS)}
+            fb.setupCFF("Verif-Regular", {"FullName": "Verif Regular"}, glyphs, {"defaultWidthX": 0, "nominalWidthX": 0})
         else:
-            glyphs[g] = _box(10 + i, 0, 100 + 7 * i, 300 + 11 * i)
-    # a composite
-    pen = TTGlyphPen(GLYPHS)
-    pen.addComponent("f", (1, 0, 0, 1, 0, 0))
-    pen.addComponent("i", (1, 0, 0, 1, 260, 0))
-    glyphs["f_i"] = pen.glyph()
-    fb.setupGlyf(glyphs)
+            # CFF2 charstrings carry no width
+            fb.setupCFF2({g: _charstring(contours_of(g), None) for g in GLYPHS})
     fb.setupHorizontalMetrics({g: (300 + 13 * i, 10 + i) for i, g in enumerate(GLYPHS)})
     fb.setupHorizontalHeader(ascent=800, descent=-200)
     fb.setupNameTable({"familyName": "Verif", "styleName": "Regular"})
